@@ -151,6 +151,21 @@ def run(model: Model, rep: Report) -> None:
     rets = [unparse(n.value) for n in walk_no_nested(a5.node) if isinstance(n, ast.Return)]
     r4.check(rets[-1:] == ["None"] and unparse(a5.node).count("== self.o_hash") == 1 and unparse(a5.node).count("== self.u_hash") == 1, site(a5), a5.qualname, "revision 5/6: the key is returned only when the owner or the user hash matches", why=f"returns {rets}")
 
+    r9 = rep.rule("C10-R9", "NORMFORM", "the bytes tried against the document are a strict (loss-free) encoding of the password: characters that cannot be encoded make the password wrong, they are not dropped or replaced - otherwise different passwords collide with the right one", 2)
+    for fq in (H + ".authenticate", H + "V5._normalize_password"):
+        fa = model.func(fq)
+        encs9 = [c for c in walk_no_nested(fa.node) if isinstance(c, ast.Call) and isinstance(c.func, ast.Attribute) and c.func.attr == "encode"]
+        if not encs9:
+            raise AnchorMissing(f"{fq}: no .encode(...) call")
+        for c in encs9:
+            mode = None
+            if len(c.args) > 1:
+                mode = c.args[1]
+            for k in c.keywords:
+                if k.arg == "errors":
+                    mode = k.value
+            strict = mode is None or (isinstance(mode, ast.Constant) and mode.value == "strict")
+            r9.check(strict, site(fa, c), fa.qualname, f"`{unparse(c)}` encodes strictly", why=f"errors mode {unparse(mode) if mode is not None else None}: characters without an encoding are dropped or replaced, so e.g. the right password followed by a character outside the code page is accepted")
     # ---------------------------------------------------------------- R5
     r5 = rep.rule("C10-R5", "RANGE", "unsigned conversion of /P maps 0..2^31-1 to themselves and negatives to their two's complement", 1)
     uv = model.func("pdfminer.pdftypes.uint_value")
